@@ -33,4 +33,6 @@ func (ptq *PeerTaskQueue) VerifDump(name func(peer.ID) string, topic func(peerta
 }
 
 // VerifTracker returns the tracker of p or nil (read-only).
-func (ptq *PeerTaskQueue) VerifTracker(p peer.ID) *peertracker.PeerTracker { return ptq.peerTrackers[p] }
+func (ptq *PeerTaskQueue) VerifTracker(p peer.ID) *peertracker.PeerTracker {
+	return ptq.peerTrackers[p]
+}
